@@ -34,7 +34,10 @@ type knapCase struct {
 	Limit   int
 	Breaker int // 0 none, 1..3 deterministic tie-breakers
 	Salt    int
+	VMul    int // every value is multiplied by this (0 and 1: as drawn); totals stay below 2^62
 }
+
+var valueScales = []int{1, 1, 1, 1, 1, 1000, 1 << 15, 1<<16 + 1, 1 << 28, 1<<31 - 1, 1 << 31, 1<<32 + 1, 1 << 40, 1 << 55}
 
 func genItems(t *rapid.T, maxN int, zeroW bool) []item {
 	n := rapid.OneOf(rapid.IntRange(0, 6), rapid.IntRange(0, maxN)).Draw(t, "n")
@@ -62,7 +65,7 @@ func genKnap(t *rapid.T) knapCase {
 	for _, it := range its {
 		sum += it.W
 	}
-	return knapCase{Items: its, Limit: rapid.IntRange(0, sum+2).Draw(t, "limit"), Breaker: rapid.IntRange(0, 4).Draw(t, "breaker"), Salt: rapid.IntRange(0, 1000).Draw(t, "salt")}
+	return knapCase{Items: its, Limit: rapid.IntRange(0, sum+2).Draw(t, "limit"), Breaker: rapid.IntRange(0, 4).Draw(t, "breaker"), Salt: rapid.IntRange(0, 1000).Draw(t, "salt"), VMul: rapid.SampledFrom(valueScales).Draw(t, "vmul")}
 }
 
 // deterministic tie-breakers: functions of the two candidate lists and a salt only
@@ -120,8 +123,9 @@ func runKnap(c knapCase, r *pb.Rec) error {
 	if len(c.Items) > 16 || c.Limit < 0 || c.Limit > 200 {
 		return nil
 	}
+	mul := max(c.VMul, 1)
 	for _, it := range c.Items {
-		if it.W < 0 || it.V < 1 {
+		if it.W < 0 || it.V < 1 || it.V > 8 || mul > 1<<55 {
 			return nil
 		}
 	}
@@ -144,7 +148,7 @@ func runKnap(c knapCase, r *pb.Rec) error {
 	for rep := 0; rep < reps(); rep++ {
 		items := append([]item(nil), c.Items...)
 		var sel []item
-		wf, vf := func(it item) int { return it.W }, func(it item) int { return it.V }
+		wf, vf := func(it item) int { return it.W }, func(it item) int { return it.V * mul }
 		if c.Breaker == 0 {
 			sel = algz.Knapsack(c.Limit, items, wf, vf)
 		} else {
@@ -158,7 +162,7 @@ func runKnap(c knapCase, r *pb.Rec) error {
 			return fmt.Errorf("Knapsack(limit %d, %+v): selection %+v weighs %d", c.Limit, c.Items, sel, w)
 		}
 		if v != best {
-			return fmt.Errorf("Knapsack(limit %d, %+v, breaker %d): value %d, optimum %d (selection %+v)", c.Limit, c.Items, c.Breaker, v, best, sel)
+			return fmt.Errorf("Knapsack(limit %d, %+v with every value multiplied by %d, breaker %d): value %d x %d, optimum %d x %d (selection %+v)", c.Limit, c.Items, mul, c.Breaker, v, mul, best, mul, sel)
 		}
 		for i := range items {
 			if items[i] != c.Items[i] {
@@ -179,6 +183,8 @@ func runKnap(c knapCase, r *pb.Rec) error {
 	r.ClassIf(replaced, "tie-breaker replaced")
 	r.ClassIf(heavy, "item heavier than the limit")
 	r.ClassIf(n == 0, "empty input")
+	r.ClassIf(best*mul >= 1<<31, "optimum total value >= 2^31")
+	r.ClassIf(best > 0 && mul >= 1<<40, "item values >= 2^40")
 	r.NonTrivialIf(n >= 4 && ties && (replaced || c.Breaker == 0))
 	return nil
 }
@@ -908,8 +914,8 @@ func runBigGraph(c bigGraphCase, r *pb.Rec) error {
 }
 
 func init() {
-	pb.Register("knapsack", pb.Options{Twins: 3, Base: 3000, Required: []string{"tie-breaker replaced", "item heavier than the limit", "empty input"},
-		Rule: "items with unique ids, n <= 12 (thorough 14), weights 0..6, values 1..6 with many ties, limits 0..sum+2, optional deterministic tie-breakers; every case executed 5 times (the code iterates Go maps); oracle: brute force over all 2^n subsets (each id at most once, weight <= limit, value == optimum); non-trivial = n >= 4 with equal values/weights"},
+	pb.Register("knapsack", pb.Options{Twins: 3, Base: 3000, Required: []string{"tie-breaker replaced", "item heavier than the limit", "empty input", "optimum total value >= 2^31", "item values >= 2^40"},
+		Rule: "items with unique ids, n <= 12 (thorough 14), weights 0..6, values 1..6 with many ties, in more than half of the cases all multiplied by one of 1000, 2^15, 2^16+1, 2^28, 2^31-1, 2^31, 2^32+1, 2^40, 2^55 (totals below 2^62), limits 0..sum+2, optional deterministic tie-breakers; every case executed 5 times (the code iterates Go maps); oracle: brute force over all 2^n subsets (each id at most once, weight <= limit, value == optimum); non-trivial = n >= 4 with equal values/weights"},
 		genKnap, runKnap)
 	pb.Register("dp_solvers", pb.Options{Twins: 3, Base: 3000, Required: []string{"tie-breaker replaced", "overflow possible", "smallest overshoot returned", "empty input"},
 		Rule: "FindDpSolvers over items with values 1..6, max 0..sum+2, with/without overflow and tie-breakers, 5 executions per case; oracle: brute force subset sums (every key sums exactly with distinct ids, every attainable total <= max is a key, smallest overshoot is a key when allowed, no key > max otherwise), Best(m) = largest attainable <= m, BestAllowMinOverflow = exact or smallest overshoot; non-trivial = n >= 4 with equal values"},
